@@ -150,7 +150,7 @@ def _validate(ctx, chunks, jobs):
         ctx.states += r.distinct
         for rec in recs:
             if rec["e"] == "Run":
-                ctx.nontrivial("a:" + ",".join(str(i) for i in rec["gen"]["ids"]) + ("n" if rec["gen"]["nl"] else ""))
+                ctx.nontrivial("a:" + ",".join(str(i) for i in rec["gen"]["ids"]) + ("n" if rec["gen"]["nl"] else "") + ("c" if rec["gen"].get("crlf") else ""))
                 ctx.extra["replayed_sequences"] = ctx.extra.get("replayed_sequences", 0) + 1
             elif rec["e"] == "Mut":
                 ctx.nontrivial("b:%d:%s:%s:%d:%s:%s" % (rec["hid"], rec["reader"], rec["mut"], rec["at"], "|".join(rec["fresh"]), rec["nl"]))
@@ -218,8 +218,8 @@ def run(ctx):
     if not ctx.violations and (ctx.extra.get("round_trips", 0) < 20 or ctx.extra.get("header_outcomes_accepted", 0) < 100):
         raise lib.ModelFailure("too few round trips / accepted headers recorded: the recording is not exercising the code")
     ctx.exhaustive = False
-    ctx.extra["line_alphabet"] = 62
-    ctx.extra["sequence_bound"] = "all sequences of <= %d physical lines over the 62-line alphabet (both with and without a final newline) + all of <= %d lines whose inner lines are among 11 core lines" % ((3, 4) if q else (4, 5))
+    ctx.extra["line_alphabet"] = 67
+    ctx.extra["sequence_bound"] = "all sequences of <= %d physical lines over the 67-line alphabet (with and without a final newline; CR LF line ends for <= 2 lines and wherever a line is continued) + all of <= %d lines whose inner lines are among 11 core lines" % ((3, 4) if q else (3, 5))
     ctx.assumptions = ["memory safety is observed (ASan/UBSan) on the enumerated inputs only; coverage-guided byte-level fuzzing is a different technique and is not done"]
     return ctx.finish(rule="one evaluation = one recorded outcome of the real code (a line sequence fed to a real KeyParser, a mutated header fed to a real "
                            "Interfile reader, a parameter_info -> parse -> parameter_info round trip); distinct_nontrivial = distinct inputs validated")
